@@ -128,6 +128,28 @@ def _bareiss(M, n, ncols):
     return sign, M[n - 1][n - 1]
 
 
+CRAMER_FORM = [False]  # per-job switch (reset by the harness): single-denominator inverse for matrices whose pivots may vanish on the domain
+
+
+def _back_substitute_cramer(M, n, m, det):
+    X = np.empty((n, m), dtype=object)
+    sdet = Sym(det)
+    for c in range(m):
+        Y = [None] * n
+        for i in range(n - 1, -1, -1):
+            acc = det.mul(M[i][n + c])
+            for j in range(i + 1, n):
+                if not M[i][j].is_zero() and not Y[j].is_zero():
+                    acc = acc.sub(M[i][j].mul(Y[j]))
+            q = acc.exact_div(M[i][i])
+            if q is None:
+                return None
+            Y[i] = q
+        for i in range(n):
+            X[i, c] = Sym(Y[i]) / sdet
+    return X
+
+
 def solve_sym(A, B):
     """A (n,n), B (n,m) arrays of Sym/numbers. Returns (X object array (n,m) of Sym, det Sym)."""
     A = np.asarray(A, dtype=object)
@@ -140,7 +162,12 @@ def solve_sym(A, B):
         row = [as_sym(x) for x in A[i]] + [as_sym(x) for x in B[i]]
         M.append(_clear_row(row))
     sign, det = _bareiss(M, n, n + m)
-    # back substitution over the fraction field
+    # Cramer form: det * x is a polynomial vector; fraction-free back substitution with exact divisions gives X = Y / det with the
+    # determinant as the ONLY denominator (dividing by the pivots instead leaves removable singularities where a pivot vanishes)
+    X = _back_substitute_cramer(M, n, m, det) if CRAMER_FORM[0] else None
+    if X is not None:
+        return X, Sym(det) * sign
+    # fallback: back substitution over the fraction field
     X = np.empty((n, m), dtype=object)
     for c in range(m):
         for i in range(n - 1, -1, -1):
